@@ -613,8 +613,10 @@ def _dump(chk, ctx, hh) -> None:
             isinstance(n, ast.JoinedStr) and T.alpha_eq(_text_shape(n), _text_shape(ast.parse("f'[{i + 1}]\\n{phh.dumps()}'", mode='eval').body), m.var_test(da.node))
             for n in ast.walk(da.node))
         if da is not None else False,
-        'hands numbered in the order given': da is not None and bool(m.fors(da.node, 'enumerate(phhs)')),
-        'every hand is kept, joined by blank lines': da is not None and bool(m.exprs(da.node, "'\\n\\n'.join(raw_phhs)")) and any(isinstance(c, ast.Call) and isinstance(c.func, ast.Attribute) and c.func.attr == 'append' for lp in m.fors(da.node, 'enumerate(phhs)') for c in ast.walk(lp)),
+        'hands numbered in the order given': da is not None and bool(m.collects(da.node, 'enumerate(phhs)', nested=True)),
+        'every hand is kept, joined by blank lines': da is not None and bool(m.collects(da.node, 'enumerate(phhs)', nested=True)) and any(
+            isinstance(c, ast.Call) and isinstance(c.func, ast.Attribute) and c.func.attr == 'join' and isinstance(c.func.value, ast.Constant)
+            and c.func.value.value == '\n\n' and len(c.args) == 1 and isinstance(c.args[0], (ast.Name, ast.ListComp)) for c in ast.walk(da.node)),
         'every table is read back as a hand': la is not None and bool(m.fors(la.node, 'loads_toml(s, parse_float=parse_value).values()'))
         and any(isinstance(n, ast.Yield) for n in ast.walk(la.node)),
         'file forms are the string forms': dfa is not None and bool(m.calls(dfa.node, 'fp.write(cls.dumps_all(phhs).encode())'))
